@@ -102,6 +102,38 @@ fn close(a: f64, b: f64, scale: f64) -> bool {
     a == b || (a.is_nan() && b.is_nan()) || (a - b).abs() <= 1e-9 * scale.max(1.0)
 }
 
+/// Same value (the oracle's expression is the float expression tree that the
+/// closed-form examples of Properties/C20.v state by reflexivity: tolerance 0).
+fn same(a: f64, b: f64) -> bool {
+    a == b || (a.is_nan() && b.is_nan())
+}
+
+/// Unit in the last place of |x| in binary64 (Flocq's `ulp`, `ulp64` in
+/// Properties/C20.v): 2^(e-53) for 2^(e-1) <= |x| < 2^e, 2^-1074 below 2^-1022.
+/// The difference to the next float is exact.  Non-finite for non-finite x.
+fn ulp(x: f64) -> f64 {
+    let a = x.abs();
+    if !a.is_finite() {
+        return f64::NAN;
+    }
+    f64::from_bits(a.to_bits() + 1) - a
+}
+
+/// |a - b| <= tol with a PROVED tolerance; when the tolerance is not finite
+/// (an intermediate value overflowed: the theorems' no-overflow hypotheses
+/// fail) fall back to the loose relative check.
+fn within(a: f64, b: f64, tol: f64, scale: f64) -> bool {
+    if tol.is_finite() {
+        same(a, b) || (a - b).abs() <= tol
+    } else {
+        close(a, b, scale)
+    }
+}
+
+/// Relative head-room for evaluating a tolerance itself in binary64 (a handful
+/// of roundings, each 2^-53 relative).
+const TOL_EVAL: f64 = 1.0 + 1e-9;
+
 /// The property's domain: span count >= 1, finite parameters, playable signs.
 fn in_domain(p: &P) -> bool {
     p.n >= 1
@@ -115,7 +147,25 @@ fn in_domain(p: &P) -> bool {
         && (p.td >= 0.0)  // finite or +inf ("no ticks")
 }
 
+/// Half of a sum of ulps (exact unless the sum is subnormal, where halving could
+/// round down: there the sum itself is used).
+fn half(sum_of_ulps: f64) -> f64 {
+    if sum_of_ulps < 1e-300 { sum_of_ulps } else { 0.5 * sum_of_ulps }
+}
+
 /// Oracle from the property text on one complete stream (fresh buffer).
+///
+/// Tolerances.  Where the oracle's expression is the float expression with
+/// which Properties/C20.v states a closed form by reflexivity (span start
+/// `start + s*dur`, repeat `span_start + dur`, tail `start + n*dur`, tick time
+/// `span_start + time_progress*dur` from the tick's own progress:
+/// C20_span_start/repeat/tail_closed_form, C20_ieee_same_ticks_every_span) the
+/// comparison is exact.  Where the property speaks about real numbers
+/// ("multiples of the tick distance", "36 ms before the end") the tolerance is
+/// the bound PROVED in Properties/C20.v, section "T20c, continued", plus the
+/// roundings of the oracle's own binary64 evaluation of the reference value,
+/// spelled out at each use.  U = ulp(len)/2 is half a unit in the last place
+/// of the (capped) length.
 fn check_stream(p: &P, evs: &[SliderEvent], out: &mut Out, desc: &str) {
     out.oracle_checks += 1;
     let mut bad = |out: &mut Out, what: String| out.fail("", desc, &what);
@@ -146,24 +196,55 @@ fn check_stream(p: &P, evs: &[SliderEvent], out: &mut Out, desc: &str) {
         bad(out, "not exactly one last tick / tail".into());
     }
     let fsst = p.start + f64::from(n - 1) * p.dur;
-    let end = p.start + f64::from(n) * p.dur;
-    // tail: at the end, progress = n % 2
-    if tl.span_idx != n - 1 || !close(tl.time, end, scale) || tl.path_progress != f64::from(n % 2) || !close(tl.span_start_time, fsst, scale) {
+    let total = f64::from(n) * p.dur;
+    let end = p.start + total;
+    // tail: at the end, progress = n % 2 (C20_tail_closed_form: exact)
+    if tl.span_idx != n - 1 || !same(tl.time, end) || tl.path_progress != f64::from(n % 2) || !same(tl.span_start_time, fsst) {
         bad(out, format!("tail wrong: {tl:?}, expected time {end}, span start {fsst}"));
     }
-    // legacy last tick: max(half-way, 36 ms before the end)
-    let half = p.start + f64::from(n) * p.dur / 2.0;
-    let want_lt = half.max(end - 36.0);
-    if lt.span_idx != n - 1 || !close(lt.time, want_lt, scale) || !close(lt.span_start_time, fsst, scale) {
-        bad(out, format!("last tick wrong: {lt:?}, expected time {want_lt}"));
+    // legacy last tick: max(half-way, 36 ms before the end).
+    // C20_ieee_last_tick_time_error: the implementation's second branch
+    // ((start + (n-1)*dur) + dur) + (-36) is within eb of start + n*dur - 36;
+    // the oracle's reading `end - 36.0` is within eb_o of it (one product, two
+    // additions); the first branch `start + (n*dur)/2` is the implementation's
+    // own expression (within ea of start + n*dur/2 on both sides, difference
+    // 0); max is 1-Lipschitz in the sup norm.
+    let half_off = total / 2.0;
+    let half_way = p.start + half_off;
+    let before_end = end - 36.0;
+    let want_lt = half_way.max(before_end);
+    let send_last = fsst + p.dur;
+    let b_impl = send_last + (-36.0);
+    let efs = half(ulp(f64::from(n - 1) * p.dur) + ulp(fsst));
+    let ea = half(ulp(total) + ulp(half_off) + ulp(half_way));
+    let eb = half(ulp(f64::from(n - 1) * p.dur) + ulp(fsst) + ulp(send_last) + ulp(b_impl));
+    let eb_o = half(ulp(total) + ulp(end) + ulp(before_end));
+    let tol_lt = (eb + eb_o) * TOL_EVAL;
+    if lt.span_idx != n - 1 || !within(lt.time, want_lt, tol_lt, scale) || !same(lt.span_start_time, fsst) {
+        bad(out, format!("last tick wrong: {lt:?}, expected time {want_lt} (tolerance {tol_lt:e})"));
     }
-    if p.dur > 1e-6 {
-        let mut prog = (want_lt - fsst) / p.dur;
+    if p.dur > 0.0 {
+        // C20_ieee_last_tick_progress_error for the implementation's value,
+        // and the same three roundings (difference, quotient, mirror) for the
+        // oracle's own evaluation from `want_lt`
+        let diff_i = lt.time - fsst;
+        let q_i = diff_i / p.dur;
+        let diff_o = want_lt - fsst;
+        let q_o = diff_o / p.dur;
+        let mut prog = q_o;
         if n % 2 == 0 {
             prog = 1.0 - prog;
         }
-        if !close(lt.path_progress, prog, scale / p.dur) {
-            bad(out, format!("last tick progress {} expected {}", lt.path_progress, prog));
+        let tol_i = (ea.max(eb) + efs + half(ulp(diff_i))) / p.dur + half(ulp(q_i)) + half(ulp(lt.path_progress));
+        let tol_o = (ea.max(eb_o) + efs + half(ulp(diff_o))) / p.dur + half(ulp(q_o)) + half(ulp(prog));
+        let tol_p = (tol_i + tol_o) * TOL_EVAL;
+        let ok = if tol_p.is_finite() {
+            same(lt.path_progress, prog) || (lt.path_progress - prog).abs() <= tol_p
+        } else {
+            !(p.dur > 1e-6) || close(lt.path_progress, prog, scale / p.dur)
+        };
+        if !ok {
+            bad(out, format!("last tick progress {} expected {} (tolerance {tol_p:e})", lt.path_progress, prog));
         }
     }
     // body: per span ticks (chronological) then a repeat, except after the last span
@@ -171,8 +252,13 @@ fn check_stream(p: &P, evs: &[SliderEvent], out: &mut Out, desc: &str) {
     let mut i = 0usize;
     let mut first_prog: Option<Vec<f64>> = None;
     let min_from_end = 10.0 * p.vel;
+    // the implementation's `len - min_dist_from_end` (same float expression)
+    let lm = len - min_from_end;
+    let len_u = ulp(len); // = 2U
     for s in 0..n {
         let sst = p.start + f64::from(s) * p.dur;
+        let send = sst + p.dur;
+        let mag = sst.abs().max(send.abs());
         let mut ticks: Vec<&SliderEvent> = vec![];
         while i < body.len() && body[i].kind == SliderEventType::Tick && body[i].span_idx == s {
             ticks.push(&body[i]);
@@ -183,37 +269,70 @@ fn check_stream(p: &P, evs: &[SliderEvent], out: &mut Out, desc: &str) {
             bad(out, format!("ticks of span {s} not in chronological order"));
         }
         // travel order = chronological on even spans, reversed on odd spans
-        let mut prog: Vec<f64> = ticks.iter().map(|e| e.path_progress).collect();
+        let mut travel: Vec<&SliderEvent> = ticks.clone();
         if s % 2 == 1 {
-            prog.reverse();
+            travel.reverse();
         }
-        for (e, _) in ticks.iter().zip(0..) {
-            if !close(e.span_start_time, sst, scale) {
+        let prog: Vec<f64> = travel.iter().map(|e| e.path_progress).collect();
+        for e in ticks.iter() {
+            if !same(e.span_start_time, sst) {
                 bad(out, format!("tick span start {} expected {}", e.span_start_time, sst));
             }
+            // mirrored in time on reversed spans: time = span start + time progress * duration (exact)
             let tp = if s % 2 == 1 { 1.0 - e.path_progress } else { e.path_progress };
-            if !close(e.time, sst + tp * p.dur, scale) {
+            if !same(e.time, sst + tp * p.dur) {
                 bad(out, format!("tick time {} expected {} (span {s}, progress {})", e.time, sst + tp * p.dur, e.path_progress));
+            }
+            // C20_ieee_span_weakly_chronological: no tick before the span start or after the span end
+            if send.is_finite() && !(sst <= e.time && e.time <= send) {
+                bad(out, format!("tick time {} outside its span [{sst}, {send}]", e.time));
             }
         }
         // multiples of the tick distance; never within 10 ms of travel of the end
         for (j, pr) in prog.iter().enumerate() {
-            let d = (j as f64 + 1.0) * p.td;
-            let tol = 1e-9 * len * (j as f64 + 1.0) + 1e-300;
-            if !((pr * len - d).abs() <= tol) {
-                bad(out, format!("tick {j} of span {s} at distance {} is not {}x tick distance {}", pr * len, j + 1, p.td));
+            // y = (j+1)*td evaluated in binary64: |y - (j+1)*td| <= ulp(y)/2 <= 2U
+            let y = (j as f64 + 1.0) * p.td;
+            // C20_ieee_stream_tick_progress: |pr - (j+1)*td/len| <= j*U/len + 2^-53, i.e.
+            // |pr*len - (j+1)*td| <= j*U + 2^-53*len < (j+2)*U; the product pr*len rounds
+            // by <= U, y by <= 2U, the difference by 2^-53 relative: (j+5)*U*(1+2^-52) <=
+            // (j+6)*U <= ceil((j+6)/2) * ulp(len), an exact binary64 number.
+            let tol = (((j + 7) / 2) as f64) * len_u;
+            if !((pr * len - y).abs() <= tol) {
+                bad(out, format!("tick {j} of span {s} at distance {} is not {}x tick distance {} (tolerance {tol:e})", pr * len, j + 1, p.td));
             }
-            if !(d < len - min_from_end + tol) || !(d <= len + tol) {
-                bad(out, format!("tick {j} of span {s} at {d} lies within {min_from_end} of the end {len}"));
+            // C20_ieee_tick_before_end: (j+1)*td < (len - mdfe) + j*U and <= len + j*U, so
+            // y - lm < (j+2)*U and y - len <= (j+2)*U; the subtraction rounds by 2^-53 relative
+            if !(y - lm <= tol) || !(y - len <= tol) {
+                bad(out, format!("tick {j} of span {s} at {y} lies within {min_from_end} of the end {len}"));
+            }
+            // C20_ieee_stream_tick_time: the tick's time against the exact closed form
+            // span_start + TP*dur, TP = (j+1)*td/len or 1 - (j+1)*td/len, whenever the span
+            // end does not overflow:  time_err = (j*U/len + 2^-53 [+ 2^-53 mirrored])*dur +
+            // ulp(dur)/2 + ulp(mag)/2 (2^-53 = EPSILON/2).  The oracle's own evaluation adds (2U/len + 2^-52 +
+            // 2^-53)*dur (product y, quotient, mirror) + ulp(dur) (product) + ulp(mag) (sum).
+            if send.is_finite() && p.dur.is_finite() {
+                let q = y / len;
+                let tp = if s % 2 == 1 { 1.0 - q } else { q };
+                let want = sst + tp * p.dur;
+                let tol_t = (((j as f64 + 2.0) * (len_u / len) * 0.5 + 4.0 * f64::EPSILON) * p.dur + 2.0 * ulp(p.dur) + 2.0 * ulp(mag)) * TOL_EVAL;
+                if !within(travel[j].time, want, tol_t, scale) {
+                    bad(out, format!("tick {j} of span {s} at time {} expected {want} (tolerance {tol_t:e})", travel[j].time));
+                }
             }
         }
-        // ... and no tick is missing: the next multiple is beyond the limit
+        // ... and no tick is missing: the next multiple is beyond the limit.
+        // C20_ieee_first_rejected_sum(_step): with k ticks the running sum d_k fails the
+        // guard (d_k > len or d_k >= len - mdfe) and |d_k - (k+1)*td| <= (k-1)*U + ulp(d_k)/2.
+        // If y = fl((k+1)*td) had len - y >= (k+4)*U and lm - y > (k+4)*U then the exact
+        // sum d_(k-1) + td <= y + k*U < len, so d_k <= len, ulp(d_k)/2 <= U, d_k <= y +
+        // (k+1)*U: inside both guards, a contradiction.  One more U for the two subtractions.
         {
-            let d = (prog.len() as f64 + 1.0) * p.td;
-            let tol = 1e-9 * len * (prog.len() as f64 + 1.0) + 1e-300;
-            let fits = p.td > 0.0 && d <= len - tol && d < len - min_from_end - tol;
+            let k = prog.len();
+            let y = (k as f64 + 1.0) * p.td;
+            let tolm = (((k + 6) / 2) as f64) * len_u;
+            let fits = p.td > 0.0 && len - y >= tolm && lm - y > tolm;
             if fits {
-                bad(out, format!("span {s}: tick {} at {d} is missing (len {len}, min dist from end {min_from_end})", prog.len()));
+                bad(out, format!("span {s}: tick {} at {y} is missing (len {len}, min dist from end {min_from_end})", prog.len()));
             }
             if !(p.td > 0.0) && !prog.is_empty() {
                 bad(out, format!("zero tick distance but {} ticks", prog.len()));
@@ -231,8 +350,21 @@ fn check_stream(p: &P, evs: &[SliderEvent], out: &mut Out, desc: &str) {
         if s < n - 1 {
             match body.get(i) {
                 Some(r) if r.kind == SliderEventType::Repeat && r.span_idx == s => {
-                    if !close(r.time, sst + p.dur, scale) || r.path_progress != f64::from((s + 1) % 2) || !close(r.span_start_time, sst, scale) {
+                    // C20_repeat_closed_form: exact
+                    if !same(r.time, send) || r.path_progress != f64::from((s + 1) % 2) || !same(r.span_start_time, sst) {
                         bad(out, format!("repeat of span {s} wrong: {r:?}"));
+                    }
+                    // C20_ieee_span_weakly_chronological: the repeat is not before any tick of its span
+                    if send.is_finite() && !ticks.iter().all(|e| e.time <= r.time) {
+                        bad(out, format!("repeat of span {s} at {} before one of its ticks", r.time));
+                    }
+                    // C20_ieee_repeat_time_error: against the closed form start + (s+1)*dur
+                    // evaluated by the oracle (one product, one addition)
+                    let prod_o = f64::from(s + 1) * p.dur;
+                    let want_r = p.start + prod_o;
+                    let tol_r = (half(ulp(f64::from(s) * p.dur) + ulp(sst) + ulp(send)) + half(ulp(prod_o) + ulp(want_r))) * TOL_EVAL;
+                    if !within(r.time, want_r, tol_r, scale) {
+                        bad(out, format!("repeat of span {s} at {} expected {want_r} (tolerance {tol_r:e})", r.time));
                     }
                     i += 1;
                 }
